@@ -2,6 +2,8 @@
 (* Traces recorded from the real code.  Two kinds of trace:                                    *)
 (*  k = "parse":  one HTMLParser.parse(bytes, **kwargs) call.                                  *)
 (*     data   first bytes of the input (at least the prescan window)                           *)
+(*     src    how the bytes were handed over: "bytes", "bytesio" or "pipe" (read() only)        *)
+(*     raised the stream constructor and parse() raised AssertionError (then nothing else)      *)
 (*     kw     [o, t, p, l, d]: the five *_encoding arguments as code points, or None           *)
 (*     e0,c0,skip0   charEncoding and raw-stream position of a freshly built                    *)
 (*                   HTMLBinaryInputStream (= before the first character is decoded)            *)
@@ -48,7 +50,10 @@ StepInit(tr) ==
         fi == InitOf(tr, {})
         skip == IF Len(tr.data) < f.from THEN Len(tr.data) ELSE f.from
         OI(DD) == Obs(InitOf(tr, DD))
-    IN  IF tr.e0 # f.enc \/ tr.c0 # f.conf THEN R(0, "reject:init-encoding", f, {})
+    IN  IF tr.raised \/ BomSeekFails(tr.data, tr.src, D)
+        THEN (IF tr.raised /\ BomSeekFails(tr.data, tr.src, D) THEN R(0, "finding", f, {"bom-seek-past-end"})
+              ELSE R(0, "reject:raised", f, {}))
+        ELSE IF tr.e0 # f.enc \/ tr.c0 # f.conf THEN R(0, "reject:init-encoding", f, {})
         ELSE IF tr.skip0 # skip THEN R(0, "reject:init-position", f, {})
         ELSE R(1, "run", f,
                IF Obs(fi) = Obs(f) THEN {}
